@@ -731,7 +731,7 @@ def fit_k(h, k):
 
 
 def run(ctx):
-    ctx.proofs(["Proofs/DeterminismProofs"], model_targets=["Determinism"])
+    ctx.proofs(["Proofs/DeterminismProofs"], model_targets=["Determinism", "DeterminismSites"])
     exe, err = vlib.build_harness("replicas")
     if exe is None:
         ctx.broken("harness-build", err)
